@@ -5,7 +5,10 @@
    contents, process counts (and sequences of batches).
    Sections A-C are about the code as it is now (sneaky.py after c80ac95, process.py after 67a753d; the
    correspondence runs `batches true` / `samples_from_model true` / `run_jobs`).  Section D keeps the machine-checked
-   record of what the code did before the two repairs (models selected by C14_MAP_FIXED=0). *)
+   record of what the code did before the two repairs (models selected by C14_MAP_FIXED=0).
+   Not in the model: the main thread building the next job while the queue's feeder thread pickles the previous one
+   (the model treats jobs as given); the one interference found there (job-pickling-race, fixed by e882fb2) is held by
+   the harness obligation regression:job-pickling-race (pickle_walk case), not by a theorem. *)
 From Coq Require Import List Bool Arith Permutation.
 From PAFC14 Require Import Model Lib Proofs1 Proofs2 Proofs3 Proofs4 Proofs5 Proofs6 Witness.
 Import ListNotations.
